@@ -347,8 +347,12 @@ func (c *SCIONClient) measureClockOffsetSCION(ctx context.Context, mtrcs *scionC
 		return time.Time{}, 0, errWrite
 	}
 	cTxTime1, id, err := udp.ReadTXTimestamp(conn)
+	cTxTimeOk := err == nil && id == 0
 	if err != nil || id != 0 {
-		cTxTime1 = timebase.Now()
+		// The request left between the reading taken before it was sent and
+		// now (after waiting for its timestamp): the earlier reading keeps
+		// the measured round-trip delay an upper bound of the real one.
+		cTxTime1 = cTxTime0
 		c.Log.LogAttrs(ctx, slog.LevelError, "failed to read packet tx timestamp", slog.Any("error", err))
 	}
 	mtrcs.reqsSent.Inc()
@@ -618,6 +622,11 @@ func (c *SCIONClient) measureClockOffsetSCION(ctx context.Context, mtrcs *scionC
 			c.prev.cRxTime = ntp.Time64FromTime(cRxTime)
 			c.prev.sRxTime = ntpresp.ReceiveTime
 			c.prev.pending = false
+		}
+		if !cTxTimeOk {
+			// Without a transmit timestamp of its own (cTxTime1 is what the
+			// request carried) the next request must not be an interleaved one.
+			c.prev.reference = ""
 		}
 
 		timestamp = cRxTime
